@@ -769,6 +769,107 @@ def run(chk) -> None:
     r03b(chk, repo, g, Kinds(g), forward)
     r03a(chk, repo, g)
     r03c(chk, repo)
+    chk.rule("R03d", "a node's position is the hull of ALL its children's positions: PositionMarker.from_child_markers builds both slices as slice(min(<child>.X.start ...), max(<child>.X.stop ...)) over every non-empty marker it is given, and BaseSegment.__init__ gives it the marker of every child")
+    r03d(chk, repo)
+
+
+MARKERS = "src/sqlfluff/core/parser/markers.py"
+SEGBASE = "src/sqlfluff/core/parser/segments/base.py"
+
+
+def r03d(chk, repo) -> None:
+    """Children need not be in rendered order (a zero-length placeholder is lexed before the
+    token a tag splits), so first/last is not the hull; min/max over all children is."""
+    import ast as _ast
+
+    from ..cfg import cfg_of, origins
+    from ..index import call_name, kwarg, last_attr, norm, short, walk_local
+
+    f = repo.fn(MARKERS, "PositionMarker.from_child_markers")
+    cfg = cfg_of(f)
+    params = [a.arg for a in f.args.args]
+    mp = params[1] if len(params) > 1 else None
+    if mp is None:
+        raise AnalysisError("R03d: from_child_markers has no markers parameter; re-confirm the anchor by hand")
+
+    def over_all_markers(it, at, depth=0) -> bool:
+        """``it`` iterates the markers parameter whole, or dropping only empty (None) entries."""
+        if isinstance(it, _ast.Name):
+            if it.id == mp and all(o.kind == "param" for o in origins(cfg, it, at)):
+                return True
+            os_ = origins(cfg, it, at)
+            return depth < 3 and bool(os_) and all(o.kind == "expr" and not o.path and over_all_markers(o.expr, o.stmt, depth + 1) for o in os_)
+        if isinstance(it, (_ast.ListComp, _ast.GeneratorExp)) and len(it.generators) == 1:
+            g = it.generators[0]
+            if not (isinstance(g.target, _ast.Name) and isinstance(it.elt, _ast.Name) and it.elt.id == g.target.id):
+                return False
+            v = g.target.id
+            if not all(norm(c) in (v, f"{v} is not None") for c in g.ifs):
+                return False
+            return over_all_markers(g.iter, at, depth + 1)
+        if isinstance(it, _ast.Call) and call_name(it) in ("list", "tuple") and len(it.args) == 1:
+            return over_all_markers(it.args[0], at, depth + 1)
+        return False
+
+    def extreme(e, at, fn: str, field: str, end: str) -> bool:
+        """``e`` is ``fn(<m>.<field>.<end> for m in <all markers> [if m])``."""
+        if isinstance(e, _ast.Name):
+            os_ = origins(cfg, e, at)
+            return bool(os_) and all(o.kind == "expr" and not o.path and extreme(o.expr, o.stmt, fn, field, end) for o in os_)
+        if not (isinstance(e, _ast.Call) and call_name(e) == fn and len(e.args) == 1 and not e.keywords):
+            return False
+        g = e.args[0]
+        if not (isinstance(g, (_ast.GeneratorExp, _ast.ListComp)) and len(g.generators) == 1 and isinstance(g.generators[0].target, _ast.Name)):
+            return False
+        v = g.generators[0].target.id
+        if norm(g.elt) != f"{v}.{field}.{end}":
+            return False
+        if not all(norm(c) in (v, f"{v} is not None") for c in g.generators[0].ifs):
+            return False
+        return over_all_markers(g.generators[0].iter, at)
+
+    rets = [r for r in walk_local(f) if isinstance(r, _ast.Return) and r.value is not None]
+    n = 0
+    for r in rets:
+        vs = [(o.expr, o.stmt) for o in origins(cfg, r.value, r)] if isinstance(r.value, _ast.Name) else [(r.value, r)]
+        for v, at in vs:
+            if not (isinstance(v, _ast.Call) and (call_name(v) == "cls" or last_attr(v) == "PositionMarker")):
+                raise AnalysisError(f"R03d: from_child_markers returns {short(v, 50)}, not a marker construction; re-confirm the anchor by hand")
+            for idx, field in ((0, "source_slice"), (1, "templated_slice")):
+                a = kwarg(v, field) or (v.args[idx] if len(v.args) > idx else None)
+                sl = None
+                if a is not None:
+                    cands = [(o.expr, o.stmt) for o in origins(cfg, a, at)] if isinstance(a, _ast.Name) else [(a, at)]
+                    sl = cands if all(isinstance(c, _ast.Call) and call_name(c) == "slice" and len(c.args) == 2 for c, _ in cands) else None
+                n += 1
+                ok = bool(sl) and all(extreme(c.args[0], cat, "min", field, "start") and extreme(c.args[1], cat, "max", field, "stop") for c, cat in sl)
+                chk.require(
+                    ok, "R03d", v,
+                    f"from_child_markers does not build the parent's {field} as slice(min(child starts), max(child stops)) over every marker it is given: children are not always "
+                    "held in that order (a zero-length template placeholder is lexed before the token its tag splits), so the node no longer spans its children",
+                    detail=f"from_child_markers: {field} is the hull of all children",
+                )
+    chk.count("R03d.parent_slices", n)
+    chk.floor("R03d.parent_slices", 2)
+    # the one caller hands over the marker of every child
+    n_c = 0
+    for q, g in repo.mod(SEGBASE).functions():
+        for c in [c for c in _ast.walk(g) if isinstance(c, _ast.Call) and last_attr(c) == "from_child_markers"]:
+            n_c += 1
+            a = c.args[0] if c.args else None
+            gcfg = cfg_of(g)
+            if isinstance(a, _ast.Name):
+                os_ = origins(gcfg, a, gcfg.stmt_of(c))
+                a = os_[0].expr if len(os_) == 1 and os_[0].kind == "expr" and not os_[0].path else a
+            ok = (
+                isinstance(a, (_ast.ListComp, _ast.GeneratorExp)) and len(a.generators) == 1 and not a.generators[0].ifs and isinstance(a.generators[0].target, _ast.Name)
+                and norm(a.elt) == f"{a.generators[0].target.id}.pos_marker"
+                and isinstance(a.generators[0].iter, _ast.Name) and all(o.kind == "param" for o in origins(gcfg, a.generators[0].iter, gcfg.stmt_of(c)))
+            )
+            chk.require(ok, "R03d", c, f"{q} derives the node's position from {short(a, 50) if a is not None else 'nothing'}, not from the pos_marker of every child it was given",
+                        detail=f"{q}: position derived from every child's marker")
+    chk.count("R03d.callers", n_c)
+    chk.floor("R03d.callers", 1)
 
 
 def _mode_ordinal(chk, mode: str, r) -> int:
@@ -888,6 +989,24 @@ _FINAL_OLD = (
 )
 
 VARIANTS = [
+    Variant(
+        "parent-rendered-span-from-first-and-last-child", "src/sqlfluff/core/parser/markers.py",
+        "            min(m.templated_slice.start for m in markers if m),\n            max(m.templated_slice.stop for m in markers if m),\n",
+        "            [m for m in markers if m][0].templated_slice.start,\n            [m for m in markers if m][-1].templated_slice.stop,\n",
+        "R03d", "from_child_markers", "seeded C03-4: a tag that renders to nothing inside the first token puts the placeholder first",
+    ),
+    Variant(
+        "parent-source-span-ignores-metas", "src/sqlfluff/core/parser/markers.py",
+        "            min(m.source_slice.start for m in markers if m),\n",
+        "            min(m.source_slice.start for m in markers if m and m.source_slice.stop > m.source_slice.start),\n",
+        "R03d", "from_child_markers", "zero-width children are skipped: a node of placeholders only has no position",
+    ),
+    Variant(
+        "quiet-parent-span-over-a-filtered-local", "src/sqlfluff/core/parser/markers.py",
+        "        source_slice = slice(\n            min(m.source_slice.start for m in markers if m),\n            max(m.source_slice.stop for m in markers if m),\n        )\n",
+        "        present = [m for m in markers if m is not None]\n        lo = min(m.source_slice.start for m in present)\n        hi = max([m.source_slice.stop for m in present])\n        source_slice = slice(lo, hi)\n",
+        "QUIET", None, "R03d: None entries dropped once into a local, bounds through locals, a list comprehension inside max()",
+    ),
     # behaviour-preserving refactors: must stay quiet
     Variant(
         "quiet-balance-gate-truthiness", LINTER,
